@@ -81,11 +81,11 @@ def replay(c):
 
 def describe():
     return dict(
-        rule='every history of <= K operations per element class with the widest operand ranges, followed by to_string with '
+        rule='every operation from every reachable state per element class with the widest operand ranges, followed by to_string with '
              'intelligent_choice off and on; every exception escaping a public call is classified (documented family or not), '
              'stdout/stderr captured per call, per-path timer; non-trivial = every history',
         functions=['xmlelement/xmlelement.py:XMLElement.*', 'xmlelement/xmlchildcontainer.py:*'],
-        bounds=dict(history_length='wide pass K=2, forward in [-2,4] quick / [-4,8] thorough; deep pass K=3 (4 thorough)', path_timeout_s=5),
+        bounds=dict(exploration='breadth-first over reachable states (structural fingerprints merge equal states), depth <= 8 quick / 10 thorough; every state expanded by all 10 operation kinds at depth <= 2 (3), by ADD REMOVE REPLACE DOTSET DOTNONE SELF deeper; path budget 3500 quick / 45000 thorough per class (breadth-first order: the cut removes the deepest states)', forward='[-2,4] quick / [-4,8] thorough', path_timeout_s=5),
         assumptions=['TypeError/ValueError are treated as documented everywhere (the statement allows them for values; the harness does not try to tell a value error from a structural one)',
                      'AttributeError is documented only for an unknown dot name'],
         exhaustive_within_bounds=True)
